@@ -36,9 +36,9 @@ ASSUMPTIONS = ['nesting deeper than 10**5 (parser stack, memory) is not enumerat
 BOUNDS = {
     'quick': '(a) <=2 lexemes over 64 and 3 over a 26-lexeme core, x{space,none} x 5 engines (3 stock, 2 customised with suffix ! / prefix ~ and **); (b) 30 expressions x 46 chars x 3 engines; '
              '(c) bodies <=4 over 18 symbols x 3 styles, \\x \\u fields over {0,1,f,Z,quote}, \\U field over {0,1,f,Z}; '
-             '(d) 24 kinds of long token / deep nesting x lengths 1..10**5 (digits-then-letter only up to 4301: quadratic lexing time); (e) all 65536 BMP code points x 5 contexts + 64 astral',
+             '(d) 24 kinds of long token / deep nesting x lengths 1..10**5 (digits-then-letter only up to 4301: quadratic lexing time); (e) all 65536 BMP code points x 5 contexts + 4 escape contexts (the code point where the escaped character, a digit field or a \\N name is expected) + 64 astral x 16 contexts',
     'thorough': 'as quick with (a) 3 lexemes over all 64 and 4 over the core (default engine), (c) bodies of length 5 in single quotes, \\U field over {0,1,f,Z,quote} (5**8) x 3 styles, '
-                '(e) additionally every code point of planes 1, 2, 14, 15, 16 alone',
+                '(e) additionally every code point of planes 1, 2, 14, 15, 16 alone and 11 escape contexts per BMP code point',
 }
 
 INT_LIMIT = sys.get_int_max_str_digits() if hasattr(sys, 'get_int_max_str_digits') else 0
@@ -366,6 +366,9 @@ def job_codepoints(ranges, contexts):
 
 
 CONTEXTS = ['X', 'aXb', "'X'", '"X"', '`X`']
+# the code point inside an escape sequence: where a digit field, a name or the escaped character is expected
+ESCAPE_CONTEXTS_Q = ["'\\X'", "'\\xX0'", "'\\N{X}'", '"\\uX000"']
+ESCAPE_CONTEXTS_T = ESCAPE_CONTEXTS_Q + ["'\\x0X'", "'\\N{aX}'", "'\\0X'", '"\\U0000000X"', "'\\u00X0'", '`\\X`', '`\\xX0`']
 ASTRAL = [0x10000, 0x10001, 0x1F600, 0x1D7D8, 0x1D7FF, 0x1FFFF, 0x20000, 0x2A6DF, 0x2FFFF, 0x30000, 0xE0001, 0xE01EF,
           0xF0000, 0xFFFFF, 0x100000, 0x10FFFF]
 
@@ -403,7 +406,9 @@ def jobs(tier, seed):
     step = 0x10000 // 8
     for i in range(8):
         out.append(('e-bmp-%x' % (i * step), 'job_codepoints', ([(i * step, (i + 1) * step)], CONTEXTS)))
-    out.append(('e-astral', 'job_codepoints', ([(cp, min(cp + 4, 0x110000)) for cp in ASTRAL], CONTEXTS)))
+        out.append(('e-esc-%x' % (i * step), 'job_codepoints', ([(i * step, (i + 1) * step)],
+                                                                ESCAPE_CONTEXTS_Q if tier == 'quick' else ESCAPE_CONTEXTS_T)))
+    out.append(('e-astral', 'job_codepoints', ([(cp, min(cp + 4, 0x110000)) for cp in ASTRAL], CONTEXTS + ESCAPE_CONTEXTS_T)))
     if tier == 'thorough':
         for plane in (1, 2, 14, 15, 16):
             for half in range(4):
